@@ -93,6 +93,15 @@ def window_cases(max_len):
                                    wh=(["cmp", "ne", col("w"), num(1)] if wh else TRUE),
                                    limit=lim, offset=off, limit_spelling=sp)
                         cases.append(mk_case({"t": rows}, q, mode="seq", tag="window"))
+                        if sp == 0 and n >= 2:
+                            # the window cuts the OUTPUT: a whole-table aggregate inside an expression of the select list (share
+                            # of total, distance to the maximum, above average) still sees every row that passed WHERE
+                            sel = [item(col("id")),
+                                   item(["bin", "minus", col("id"), ["aggr", "max", [col("id")]]], "d"),
+                                   item(["case", [[["cmp", "ge", col("id"), ["aggr", "avg", [col("id")]]], num(1)]], num(0)], "hi"),
+                                   item(["bin", "plus", col("w"), ["aggr", "count", []]], "c")]
+                            q2 = select(sel, table("t"), wh=(["cmp", "ne", col("w"), num(1)] if wh else TRUE), limit=lim, offset=off)
+                            cases.append(mk_case({"t": rows}, q2, mode="seq", tag="window"))
     return cases
 
 
